@@ -300,6 +300,16 @@ class C03(runner.Prop):
         ctx.label('deep_case')
         if len(set(res.values())) > 1:
             ctx.fail('deep/parity', f'{k} depth={depth}: {res!r}')
+        if res.get('tree_flatten') is None:
+            # what the traversals accept, the treespec's own path walkers recompute (same paths, no RecursionError)
+            try:
+                spec = optree.tree_structure(tree, **kw)
+                tp = optree.tree_paths(tree, **kw)
+                if not compare.paths_same(spec.paths(), tp) or not compare.paths_same([a.path for a in spec.accessors()], tp) \
+                        or not compare.paths_same(optree.treespec_paths(spec), tp):
+                    ctx.fail('deep/spec_paths', f'{k} depth={depth}')
+            except Exception as e:  # noqa: BLE001
+                ctx.fail('deep/spec_paths_raises', f'{k} depth={depth}: {type(e).__name__}: {e}')
         limit = optree.MAX_RECURSION_DEPTH
         # the leaf sits at depth `depth`; a predicate stopping at the innermost container ends one level earlier
         stops_early = case['cfg']['pred'] == 'holds_one_int' and depth >= 1 and gen.PREDICATES['holds_one_int'](deep(k, 1, 1))
